@@ -280,12 +280,13 @@ CHECKS["C04"] = {
             "is proved under the state-level hypothesis ChooseFresh (violated by the real code: known finding); the unconditional "
             "lnd_ask_fresh_statement stays a stated Prop. Tie: real LearnerND in bit-exact lock-step (2-D/3-D, rect/ConvexHull, 3 losses, "
             "scalar/vector, runner-like interleavings, non-committing asks, discards). Search: the clauses of C04 on the real "
-            "learner after every op with exact rational geometry.",
+            "learner after every op with exact rational geometry (incl. every pending point rebound by a tell subdivides every "
+            "new simplex it lies in).",
     "design_ref": "DESIGN.md section 6 C04",
     "note": "Trusted: Lean kernel, standard axioms, hand model LND.lean tied by differential testing, the monkeypatch recorder, "
             "CPython round(x,8) reproduced from bit patterns. Hypotheses: truthful combinatorics of the (sub)triangulations "
-            "(C03), ChooseGeom (truthful choose / point_in_simplex / sub-triangulation insert) for completeness, the former ghost flag is now a "
-            "theorem (lnd_chosen_subdivided, lnd_ghost_true); remove_unfinished covered since fix e79ba45. Known findings: pending point on "
+            "(C03), ChooseGeom (truthful choose / point_in_simplex / sub-triangulation insert) and AskNew (the chosen point has no value; "
+            "derived from ChooseLocal + DataBound) for completeness, the former ghost flag is now a theorem (lnd_chosen_subdivided, lnd_ghost_true); remove_unfinished covered since fix e79ba45. Known findings: pending point on "
             "a hull face re-proposed (ValueError), degenerate triangulation for 1e6-aspect boxes.",
     "technique": T,
 }
